@@ -13,8 +13,7 @@ check = runner._load_check(cid)
 t = time.time(); seen = {}
 tot = 0
 for i in range(n0, n1):
-    rng = core.rng_for(seed, cid, i)
-    case = check.gen(rng, tier)
+    case = runner.make_case(check, cid, seed, i, tier)
     out = runner.run_one(check, case)
     tot += 1
     for v in out["violations"]:
